@@ -121,6 +121,9 @@ def _reduce(rep, mod, fn):
         u = update_of(s)
         if u and u[1] == 'Add':
             ext[u[0]] = unparse(u[2])
+        elif isinstance(s, ast.Expr) and isinstance(s.value, ast.Call) and isinstance(s.value.func, ast.Attribute) \
+                and s.value.func.attr == 'extend' and len(s.value.args) == 1:
+            ext[unparse(s.value.func.value)] = unparse(s.value.args[0])
     ok = bool(rep_app) and ext.get(kres) == kl and ext.get(wres) == wl
     rep.ob('weight-conservation', mod, shell, 'results: %s += %s ; %s += %s' % (kres, kl, wres, wl), ok,
            '' if ok else 'the representatives / weights of a shell are not appended (together) to the lists that are returned', engine='flow', qual=q)
@@ -170,15 +173,24 @@ def _full(rep, mod, fn):
         raise AnalysisError('%s: return not found' % q)
     res = unparse(rets[-1].value)
     loops = [x for x in fn.body if isinstance(x, ast.For) and unparse(x.iter) == res]
+    inner = [y for lp_ in loops for y in ast.walk(lp_) if isinstance(y, ast.For) and 'self.BZG' in unparse(resolve_local(fn, y.iter))
+             and '[' not in unparse(resolve_local(fn, y.iter)).replace('self.BZG]', '').split('self.BZG', 1)[1][:1]]
+    if not loops or not inner:
+        # locate failed: on a restructured tree this is undecided, on the pinned tree it is a violation of the rule's shape
+        if getattr(rep, 'strict', True):
+            rep.ob('fold-every-point', mod, fn, 'for k in mesh: for G in self.BZG: fold', False, 'not every point of the mesh is folded with every '
+                   'vector of the BZ list', engine='flow', qual=q)
+        else:
+            rep.undecided('%s: fold loop over every mesh point and every BZ vector not located' % q)
+        return
+    k = unparse(loops[0].target)
+    gnames = [n.id for n in ast.walk(inner[0].target) if isinstance(n, ast.Name)]
     ok = False
-    if loops:
-        k = unparse(loops[0].target)
-        inner = [y for y in ast.walk(loops[0]) if isinstance(y, ast.For) and unparse(y.iter) == 'self.BZG']
-        if inner:
-            g = unparse(inner[0].target)
-            ok = pattern.has(inner[0], 'if np.dot(_N_k, _N_G) > np.dot(_N_G, _N_G):\n    _N_k -= 2.0 * _N_G', _N_k=k, _N_G=g) or \
-                pattern.has(inner[0], 'if np.dot(_N_k, _N_G) > np.dot(_N_G, _N_G):\n    _N_k -= 2 * _N_G', _N_k=k, _N_G=g)
-    rep.ob('fold-every-point', mod, loops[0] if loops else fn, 'for k in mesh: for G in self.BZG: if k.G > G.G: k -= 2 G (in place, every point)', ok,
+    for st in ast.walk(inner[0]):
+        u = update_of(st) if isinstance(st, (ast.Assign, ast.AugAssign)) else None
+        if u and u[0] == k and u[1] == 'Sub' and any(unparse(u[2]).replace(' ', '') in ('2.0*%s' % g, '2*%s' % g, '%s*2.0' % g, '%s*2' % g, '2.*%s' % g) for g in gnames):
+            ok = True
+    rep.ob('fold-every-point', mod, loops[0], 'for k in mesh: for G in self.BZG: ... k -= 2 G (in place, every point, every vector)', ok,
            '' if ok else 'not every point of the mesh is folded with every vector of the BZ list', engine='flow', qual=q)
 
 
